@@ -1,6 +1,5 @@
 PROP = dict(
     id="C25",
-    disabled=True,
     engines=["c25"],
     go_tags=["c25"],
     gen_files={"MM/Gen/C25.lean": "c25"},
